@@ -195,7 +195,9 @@ func RunSimpleConc(cfg SmallConcCfg, t *Trace, seg int) int {
 				return false, &SDump{Ev: "sdump", Files: []SFile{}}
 			}
 			return true, simpleDump(rec, "recovered")
-		}, "scrashprobe", func(i int) interface{} { return &Call{I: i, Data: []Run{}, RData: []Run{}, Ents: []Ent{}, Leaked: []int{}} })
+		}, "scrashprobe", func(i int) interface{} {
+			return &Call{I: i, Data: []Run{}, RData: []Run{}, Ents: []Ent{}, Leaked: []int{}}
+		})
 	fmt.Fprintf(os.Stderr, "simpleconc: %d stream events, %d probes\n", len(h.events), np)
 	if final != nil {
 		t.Emit(final)
